@@ -1,0 +1,181 @@
+//go:build verif
+
+package astisub
+
+// Verification hooks for the teletext reader (build tag "verif"): a feeder that drives the page buffer and
+// the character decoder exactly the way ReadFromTeletext does, minus the demuxer, and read-only dumps of
+// the package-level teletext tables and of the astikit / math/bits helpers as the reader uses them.
+// Add-only; never compiled without the tag.
+
+import (
+	"math/bits"
+	"sort"
+	"time"
+
+	"github.com/asticode/go-astikit"
+	"github.com/asticode/go-astits"
+)
+
+// VerifTeletextDelivery is what the demuxer hands to the reader for one PES packet of the teletext PID:
+// the PES payload and the time teletextDataTime computed for it (the zero time when there is none)
+type VerifTeletextDelivery struct {
+	Payload []byte
+	Time    time.Time
+}
+
+// VerifTeletextFeed is the body of ReadFromTeletext after PID selection and demuxing: every delivery goes
+// through the same zero-time filter, first/last time bookkeeping and teletextPageBuffer.process, then
+// the buffer is dumped and the pages are parsed with the same character decoder
+func VerifTeletextFeed(page int, ds []VerifTeletextDelivery) (s *Subtitles) {
+	s = &Subtitles{}
+	cd := newTeletextCharacterDecoder()
+	b := newTeletextPageBuffer(page, cd)
+	var firstTime, lastTime time.Time
+	var ps []*teletextPage
+	for _, d := range ds {
+		t := d.Time
+		if t.IsZero() {
+			continue
+		}
+		if firstTime.IsZero() || firstTime.After(t) {
+			firstTime = t
+		}
+		if lastTime.IsZero() || lastTime.Before(t) {
+			lastTime = t
+		}
+		ps = append(ps, b.process(&astits.PESData{Data: d.Payload}, t)...)
+	}
+	ps = append(ps, b.dump(lastTime)...)
+	for _, p := range ps {
+		p.parse(s, cd, firstTime)
+	}
+	return
+}
+
+// VerifTeletextTable is one named character table (96 entries for G0/G2 sets, 13 for national subsets)
+type VerifTeletextTable struct {
+	Name    string
+	Entries [][]byte
+}
+
+// VerifTeletextCharsetEntry is one entry of teletextCharsets; the tables are referred to by their index in
+// VerifTeletextTables.G0 / G2 / National (-1: nil pointer)
+type VerifTeletextCharsetEntry struct {
+	Triplet, Code    uint8
+	G0, G2, National int
+}
+
+// VerifTeletextTableDump is the read-only dump of everything table-like the teletext reader consults
+type VerifTeletextTableDump struct {
+	G0, G2, National []VerifTeletextTable
+	Charsets         []VerifTeletextCharsetEntry // sorted by (Triplet, Code)
+	NationalPosition []uint8                     // teletextNationalSubsetCharactersPositionInG0
+	Hamming84        [256]int                    // astikit.ByteHamming84Decode: value, or -1 when !ok
+	ParityValue      [256]uint8                  // astikit.ByteParity: value
+	ParityOK         [256]bool                   // astikit.ByteParity: ok
+	Reverse8         [256]uint8                  // bits.Reverse8
+}
+
+// VerifTeletextTables dumps the tables (copies; nothing is written)
+func VerifTeletextTables() (d VerifTeletextTableDump) {
+	cp := func(e [][]byte) (o [][]byte) {
+		for _, v := range e {
+			o = append(o, append([]byte{}, v...))
+		}
+		return
+	}
+	g0s := []struct {
+		n string
+		p *teletextCharset
+	}{
+		{"G0Latin", teletextCharsetG0Latin}, {"G0CyrillicOption1", teletextCharsetG0CyrillicOption1},
+		{"G0CyrillicOption2", teletextCharsetG0CyrillicOption2}, {"G0CyrillicOption3", teletextCharsetG0CyrillicOption3},
+		{"G0Greek", teletextCharsetG0Greek}, {"G0Arabic", teletextCharsetG0Arabic}, {"G0Hebrew", teletextCharsetG0Hebrew},
+	}
+	g2s := []struct {
+		n string
+		p *teletextCharset
+	}{
+		{"G2Latin", teletextCharsetG2Latin}, {"G2Arabic", teletextCharsetG2Arabic},
+		{"G2Cyrillic", teletextCharsetG2Cyrillic}, {"G2Greek", teletextCharsetG2Greek},
+	}
+	nats := []struct {
+		n string
+		p *teletextNationalSubset
+	}{
+		{"CzechSlovak", teletextNationalSubsetCzechSlovak}, {"English", teletextNationalSubsetEnglish},
+		{"Estonian", teletextNationalSubsetEstonian}, {"French", teletextNationalSubsetFrench},
+		{"German", teletextNationalSubsetGerman}, {"Italian", teletextNationalSubsetItalian},
+		{"LettishLithuanian", teletextNationalSubsetLettishLithuanian}, {"Polish", teletextNationalSubsetPolish},
+		{"PortugueseSpanish", teletextNationalSubsetPortugueseSpanish}, {"Romanian", teletextNationalSubsetRomanian},
+		{"SerbianCroatianSlovenian", teletextNationalSubsetSerbianCroatianSlovenian},
+		{"SwedishFinnishHungarian", teletextNationalSubsetSwedishFinnishHungarian}, {"Turkish", teletextNationalSubsetTurkish},
+	}
+	// tables are identified by pointer: aliases (G0Arabic = G0Latin) share the index of the first name, a
+	// table reachable only from teletextCharsets gets a name of its own
+	var g0p, g2p []*teletextCharset
+	var natp []*teletextNationalSubset
+	idxCS := func(ps *[]*teletextCharset, ts *[]VerifTeletextTable, p *teletextCharset, name string) int {
+		if p == nil {
+			return -1
+		}
+		for i, q := range *ps {
+			if q == p {
+				return i
+			}
+		}
+		*ps = append(*ps, p)
+		*ts = append(*ts, VerifTeletextTable{Name: name, Entries: cp(p[:])})
+		return len(*ps) - 1
+	}
+	idxNat := func(p *teletextNationalSubset, name string) int {
+		if p == nil {
+			return -1
+		}
+		for i, q := range natp {
+			if q == p {
+				return i
+			}
+		}
+		natp = append(natp, p)
+		d.National = append(d.National, VerifTeletextTable{Name: name, Entries: cp(p[:])})
+		return len(natp) - 1
+	}
+	for _, t := range g0s {
+		idxCS(&g0p, &d.G0, t.p, t.n)
+	}
+	for _, t := range g2s {
+		idxCS(&g2p, &d.G2, t.p, t.n)
+	}
+	for _, t := range nats {
+		idxNat(t.p, t.n)
+	}
+	var k1s []int
+	for k1 := range teletextCharsets {
+		k1s = append(k1s, int(k1))
+	}
+	sort.Ints(k1s)
+	for _, k1 := range k1s {
+		var k2s []int
+		for k2 := range teletextCharsets[uint8(k1)] {
+			k2s = append(k2s, int(k2))
+		}
+		sort.Ints(k2s)
+		for _, k2 := range k2s {
+			e := teletextCharsets[uint8(k1)][uint8(k2)]
+			d.Charsets = append(d.Charsets, VerifTeletextCharsetEntry{Triplet: uint8(k1), Code: uint8(k2),
+				G0: idxCS(&g0p, &d.G0, e.g0, "G0Anonymous"), G2: idxCS(&g2p, &d.G2, e.g2, "G2Anonymous"), National: idxNat(e.national, "Anonymous")})
+		}
+	}
+	d.NationalPosition = append([]uint8{}, teletextNationalSubsetCharactersPositionInG0[:]...)
+	for i := 0; i < 256; i++ {
+		if v, ok := astikit.ByteHamming84Decode(uint8(i)); ok {
+			d.Hamming84[i] = int(v)
+		} else {
+			d.Hamming84[i] = -1
+		}
+		d.ParityValue[i], d.ParityOK[i] = astikit.ByteParity(uint8(i))
+		d.Reverse8[i] = bits.Reverse8(uint8(i))
+	}
+	return
+}
